@@ -81,13 +81,16 @@ def configs(prop, tier):
                                 Regs=["OPER", "QUES"], RegWrites=["setcond", "enab"], RegVals=[0, 1], RegOps=["evq"], Mavs=[False, True], MaxQ=1, Tst=-330)))
         cs.append(("writes", dict(Ops0=["eseq", "sreq", "esrq", "errq", "cls"], EseVals=[0, 1, 128, 255, 256, -1, 65536],
                                   SreVals=[0, 64, 255, 256, -1], SreInitVals=[0, 64, 255, 256, -1], MaxQ=1)))
+        # bit 15 never takes part in a summary (reported values have bit 15 clear)
+        cs.append(("bit15", dict(Ops0=["stbq", "cls"], RegOps=["condq", "enabq"], RegWrites=["enab", "setcond"], Regs=["OPER", "QUES"],
+                                 RegVals=[0, 32768, 32769], SreVals=[255], SreInitVals=[255], Mavs=[False])))
         if th:
             cs.append(("both", dict(full, Regs=["OPER", "QUES"], EseVals=[0, 33], SreInitVals=bits([3, 7, 4]), SreVals=[0])))
         return cs, [0]
     if prop == "C13":
         errs = [{"code": -100, "ext": 0}, {"code": -200, "ext": 0}, {"code": -300, "ext": 1}, {"code": -400, "ext": 0},
-                {"code": 7, "ext": 0}, {"code": -800, "ext": 2}]
-        base = dict(Ops0=["cls", "esrq", "opc", "errq", "countq", "allq", "nop", "nopq", "stbq"], FailErrs=errs,
+                {"code": 7, "ext": 0}, {"code": -800, "ext": 2}, {"code": -190, "ext": 0}, {"code": -450, "ext": 0}]   # the last two have no standard variant: custom errors in a non-device class
+        base = dict(Ops0=["cls", "esrq", "opc", "opcq", "errq", "countq", "allq", "nop", "nopq", "stbq"], FailErrs=errs,
                     BadKinds=["undef", "p108", "p109", "range"], MaxQ=2)
         cs = [("vec", dict(base, Cap=0)), ("arr2", dict(base, Cap=2, MaxQ=2))]
         if th:
